@@ -379,7 +379,7 @@ func TestCheck(t *testing.T) {
 		for _, lim := range []int{0, -1, 5, math.MaxInt, math.MaxInt - 1, 1 << 31, 1 << 32} {
 			restore := setLimit(lim)
 			r.Serial(func(w *vkit.W) {
-				for _, text := range ref.ConventionalTexts {
+				for _, text := range append(append([]string{}, ref.ConventionalTexts...), ref.Wrapped("1.2.3", "v1.2.3-rc.1+b")...) {
 					judge(Case{Kind: "text", Text: vkit.B(text), Limit: lim}, w)
 					w.EvalRandom(vkit.Hash64("W", text, strconv.Itoa(lim)), true)
 				}
@@ -538,7 +538,11 @@ func TestCheck(t *testing.T) {
 		r.Phase(fmt.Sprintf("A4: long versions around the buffer-size boundaries, MaxInputLength setting %d (0 = default 1024, -1 = disabled)", lim), func() {
 			defer setLimit(lim)()
 			var texts []string
-			for _, n := range []int{50, 57, 58, 59, 63, 64, 65, 127, 128, 129, 255, 256, 257, 511, 512, 513, 1017, 1018, 1019, 1020, 1023, 1024, 1025, 1026, 1100, 2047, 2048, 2049, 2094, 2095, 2096, 4095, 4096, 4097} {
+			ns := []int{50, 57, 58, 59, 63, 64, 65, 127, 128, 129, 255, 256, 257, 511, 512, 513, 1017, 1018, 1019, 1020, 1023, 1024, 1025, 1026, 1100, 2047, 2048, 2049, 2094, 2095, 2096, 4095, 4096, 4097}
+			if lim == -1 {
+				ns = append(ns, 32767, 32768, 65520, 65535, 65536, 65537, 70000, 131072, 1<<20+1) // beyond what 15, 16 and 17 bits can index
+			}
+			for _, n := range ns {
 				for _, shape := range []int{0, 1, 2, 3} {
 					var t string
 					switch shape {
